@@ -207,7 +207,11 @@ def run_random(family, seed, tier='quick'):
   # (PCT) instead of a uniform choice at every step
   # (a family may have chosen already)
   pct_draw = (rng.random() < 0.25, rng.choice([1, 2, 2, 3]))
-  if 'pct' not in cfg.setdefault('sim', {}) and pct_draw[0]:
+  # Families whose oracles assume a fair scheduler in simulated time opt out:
+  # a thread kept waiting by priorities while others poll lets the simulated
+  # clock run on, which is a stalled node - a fault, not a schedule.
+  if 'pct' not in cfg.setdefault('sim', {}) and pct_draw[0] and getattr(
+      family, 'pct_ok', True):
     cfg['sim']['pct'] = pct_draw[1]
   return cfg, execute(family, cfg, _chooser(cfg, sched_seed))
 
